@@ -41,9 +41,11 @@ def extract(spec, text):
         if len(a) != 1 or a[0][0] != 1:
             raise NotANest("index math")
     term_tensors = []
+    term_scalars = []
     owner = {}
     for ti, t in enumerate(st["terms"]):
         ts = []
+        term_scalars.append([f[1] for f in t["factors"] if f[0] == "V"])
         for f in t["factors"]:
             if f[0] == "T":
                 for a in f[2]:
@@ -94,6 +96,7 @@ def extract(spec, text):
             if t not in iter_ranks:
                 raise NotANest("tensor %s has no getRoot" % t)
     L, views = [], []
+    leaf_stmt = None
     node = loops
     # fibers bound by loop patterns: name -> tensor (by the naming convention <tensor lower>_<rank lower>)
     lower = {t.lower(): t for t in owner}
@@ -121,6 +124,61 @@ def extract(spec, text):
             raise NotANest("sibling loops")
         if inner and len(node.body) != 1:
             raise NotANest("statements beside an inner loop")
+        if not inner:
+            if len(node.body) != 1:
+                raise NotANest("several statements in the innermost loop")
+            leaf_stmt = node.body[0]
         node = inner[0] if inner else None
-    shape = [[iter_ranks[t] for t in ts] for ts in term_tensors]
-    return L, shape, views
+    if loops is None:
+        # rank-0 computation: the update is a top-level statement
+        ups = [s for s in body if isinstance(s, ast.AugAssign)]
+        if len(ups) != 1:
+            raise NotANest("no single update statement")
+        leaf_stmt = ups[0]
+    # scalar factors are rank-0 operands placed after the tensors of their term
+    shape = [[iter_ranks[t] for t in ts] + [[] for _ in sc] for ts, sc in zip(term_tensors, term_scalars)]
+    acc, lv = _leaf_view(leaf_stmt, term_tensors, term_scalars, fiber)
+    out_ranks = [a[0][1].upper() for a in st["out_idx"]]
+    return L, shape, views, acc, lv, out_ranks
+
+
+def _leaf_view(stmt, term_tensors, term_scalars, fiber):
+    """The update statement `<out>_ref += e` / `<out>_ref <<= e`, e = sum over the terms (in order) of products of
+    `<tensor>_val` names and scalar names -> (accumulates?, per term the sorted operand positions multiplied)."""
+    if not (isinstance(stmt, ast.AugAssign) and isinstance(stmt.target, ast.Name) and stmt.target.id.endswith("_ref")):
+        raise NotANest("update statement " + ast.dump(stmt)[:60])
+    if isinstance(stmt.op, ast.Add):
+        acc = True
+    elif isinstance(stmt.op, ast.LShift):
+        acc = False
+    else:
+        raise NotANest("update operator")
+
+    def summands(e):
+        if isinstance(e, ast.BinOp) and isinstance(e.op, ast.Add):
+            return summands(e.left) + summands(e.right)
+        return [e]
+
+    def factors(e):
+        if isinstance(e, ast.BinOp) and isinstance(e.op, ast.Mult):
+            return factors(e.left) + factors(e.right)
+        if isinstance(e, ast.Name):
+            return [e.id]
+        raise NotANest("update operand " + ast.dump(e)[:60])
+    terms = summands(stmt.value)
+    if len(terms) != len(term_tensors):
+        raise NotANest("update expression has %d summands for %d terms" % (len(terms), len(term_tensors)))
+    lv = []
+    for e, ts, sc in zip(terms, term_tensors, term_scalars):
+        # operand names of this term, by position: <tensor lower>_val for tensors, the scalar's own name for scalars
+        names = [t.lower() + "_val" for t in ts] + list(sc)
+        free = list(range(len(names)))
+        ps = []
+        for n in factors(e):
+            hit = [i for i in free if names[i] == n]
+            if not hit:
+                raise NotANest("update multiplies %s which is not an unused operand of its term" % n)
+            free.remove(hit[0])
+            ps.append(hit[0])
+        lv.append(sorted(ps))
+    return acc, lv
